@@ -320,6 +320,18 @@ pub fn plan(property: &str, quick: bool) -> Plan {
             let mut parts: Vec<Part> = vec![];
             parts.push(Part::Bfs(Box::new(c02_scn("c02-contend", false, !quick)), lim(if quick { 9 } else { 8 }, 3_000_000, if quick { 40.0 } else { 900.0 })));
             parts.push(Part::Bfs(Box::new(WithPrelude { inner: c02_scn("c02-contend-password", true, !quick) }), lim(if quick { 8 } else { 8 }, 3_000_000, if quick { 20.0 } else { 900.0 })));
+            if !quick {
+                parts.push(Part::Custom(
+                    "bind:c02-contend".into(),
+                    Box::new(|| {
+                        let scn = c02_scn("c02-contend", false, false);
+                        let pre = vec![Act::Connect(0), Act::Send(0, "NICK wit".into()), Act::Send(0, "USER wu 8 * :Real wu".into())];
+                        let (bin, dir) = crate::props::bind_paths();
+                        let cfg = scn.cfg.clone();
+                        crate::bind::run_bind("bind:c02-contend", &scn, &cfg, &pre, 5, 3000, &bin, &dir)
+                    }),
+                ));
+            }
             Plan {
                 property: "C02".into(),
                 rule: "E-SEQ BFS: 2 (thorough: 3) contending connections + a registered witness; nick menu {x,y,z}; alphabet NICK/USER/PASS good|bad/CAP/QUIT/EOF for unregistered connections, PRIVMSG/JOIN/NICK/MODE/AWAY/QUIT/EOF for registered ones, and attempts to act by unregistered/refused connections. Oracles: Spec (a refused or incomplete registration changes nothing and delivers nothing), bijection between registered nicknames and owning connections in every state, attribution and reachability of every owner after every step".into(),
